@@ -765,6 +765,19 @@ pub fn run(ctx: &mut Ctx) {
         cases.push(base(version, vec![b"HTTP/1.1 304 Not Modified\r\nTransfer-Encoding: chunked\r\n\r\n"], vec![], false));
         cases.push(base(version, vec![b"HTTP/1.1 204 No Content\r\nTransfer-Encoding: chunked\r\n", b"\r\n"], vec![], true));
     }
+    // response heads with many header lines: around every size of the parser's header array (32, 64, 128) and beyond
+    for nh in [31usize, 32, 33, 63, 64, 65, 100, 127, 128, 129, 200] {
+        for version in [11u8, 2] {
+            let mut head = b"HTTP/1.1 200 OK\r\n".to_vec();
+            for i in 0..nh - 1 {
+                head.extend_from_slice(format!("X-H{}: v{}\r\n", i, i).as_bytes());
+            }
+            head.extend_from_slice(b"Content-Length: 2\r\n\r\nok");
+            cases.push(base(version, vec![&head[..]], vec![], true));
+            let cut = head.len() / 2;
+            cases.push(base(version, vec![&head[..cut], &head[cut..]], vec![3], false));
+        }
+    }
     for c in cases.drain(..).collect::<Vec<_>>() {
         emit_case(ctx, &c);
     }
@@ -820,7 +833,7 @@ pub fn run_malicious(ctx: &mut Ctx) {
     for k in 0..n {
         let rng = &mut ctx.rng;
         let version = *rng.pick(&[11u8, 2, 3]);
-        let class = if k < 40 { k % 10 } else { rng.below(10) };
+        let class = if k < 44 { k % 11 } else { rng.below(11) };
         let method = if class == 3 { "HEAD" } else { "GET" };
         let extra: Vec<u8> = (0..*rng.pick(&[1usize, 2, 5, 17, 64])).map(|i| b'x' + (i % 3) as u8).collect();
         let body: Vec<u8> = (0..*rng.pick(&[0usize, 1, 3, 10, 50])).map(|i| b'A' + (i % 26) as u8).collect();
@@ -910,6 +923,17 @@ pub fn run_malicious(ctx: &mut Ctx) {
                 for i in 0..rng.range(200, 3000) {
                     resp.extend_from_slice(format!("X-{}: {}\r\n", i, "v".repeat(rng.below(60) as usize)).as_bytes());
                 }
+            }
+            9 => {
+                name = "many_header_lines";
+                resp.extend_from_slice(b"HTTP/1.1 200 OK\r\n");
+                let nh = *rng.pick(&[33u64, 64, 65, 66, 100, 127, 128, 129, 130, 257, 300]) + rng.below(2);
+                for i in 0..nh {
+                    resp.extend_from_slice(format!("X-{}: {}\r\n", i, i).as_bytes());
+                }
+                resp.extend_from_slice(b"\r\n");
+                resp.extend_from_slice(&body);
+                modelled = true;
             }
             _ => {
                 name = "not_http";
